@@ -177,6 +177,9 @@ class LLSWorld(World):
         k["Gkind"] = rng.choice(["none", "none", "none", "dense", "fd"])
         k["lamda"] = rng.choice([0, 0, round(10 ** rng.uniform(-1.5, 0.5), 3)])
         k["z"] = rng.random() < 0.4
+        k["z_scalar"] = k["z"] and rng.random() < 0.25   # documented: "z (float or array)"
+        k["save_obj"] = rng.random() < 0.2                # objective() evaluated after every update
+        k["views"] = rng.random() < 0.25                  # y, z and the initial x are strided views of larger caller arrays
         k["xgiven"] = rng.choice(["none", "zeros", "random"])
         k["P"] = rng.random() < 0.3
         k["steps_given"] = rng.random() < 0.4
@@ -269,7 +272,10 @@ class LLSWorld(World):
         plan["lam_g"] = round(10 ** rng.uniform(-1.5, 0.3), 3)
         plan["lo"], plan["hi"] = -0.3, 0.6
         if k["z"]:
-            plan["z"] = codec.enc(np.round(common.randn(g, (n,), k["complex"]), 4))
+            if k["z_scalar"]:
+                plan["z"] = codec.enc(np.full((n,), round(rng.uniform(-1, 1), 3)))
+            else:
+                plan["z"] = codec.enc(np.round(common.randn(g, (n,), k["complex"]), 4))
         if k["xgiven"] == "random":
             plan["x0"] = codec.enc(np.round(common.randn(g, (n,), k["complex"]), 4))
         if k["Gkind"] == "dense":
@@ -398,13 +404,24 @@ class LLSWorld(World):
         else:
             raise ValueError(kind)
         dt = np.complex128 if k["complex"] else np.float64
-        y = codec.dec(plan["y"]).astype(dt).reshape(Aop.oshape)
+
+        def as_view(a):
+            if not k.get("views") or a.ndim == 0:
+                return a
+            big = np.zeros(a.shape[:-1] + (a.shape[-1] * 2,), dtype=a.dtype)
+            big[..., ::2] = a
+            return big[..., ::2]
+        y = as_view(codec.dec(plan["y"]).astype(dt).reshape(Aop.oshape))
         ledger.own("y", y)
         kw = {}
         if plan.get("z") is not None:
             z = codec.dec(plan["z"]).astype(dt).reshape(ish)
-            ledger.own("z", z)
-            kw["z"] = z
+            if k.get("z_scalar"):
+                kw["z"] = float(np.real(z.ravel()[0]))
+            else:
+                z = as_view(z)
+                ledger.own("z", z)
+                kw["z"] = z
         Gop = None
         if plan.get("G"):
             if plan["G"]["kind"] == "dense":
@@ -424,9 +441,9 @@ class LLSWorld(World):
             kw["proxg"] = sp.prox.BoxConstraint(gshape, plan["lo"], plan["hi"])
         x_caller = None
         if k["xgiven"] == "zeros":
-            x_caller = np.zeros(ish, dtype=dt)
+            x_caller = as_view(np.zeros(ish, dtype=dt))
         elif k["xgiven"] == "random":
-            x_caller = codec.dec(plan["x0"]).astype(dt).reshape(ish)
+            x_caller = as_view(codec.dec(plan["x0"]).astype(dt).reshape(ish))
         if x_caller is not None:
             kw["x"] = x_caller
         return Aop, y, kw, x_caller, Gop
@@ -479,6 +496,15 @@ class LLSWorld(World):
                 budget = n + 5
             opts = dict(lamda=lam, solver=solver, max_iter=budget, show_pbar=k["show_pbar"],
                         accelerate=k["accelerate"], rho=k["rho"], max_cg_iter=30, max_power_iter=30)
+            if k.get("save_obj"):
+                gk_, lg_ = k["gkind"], plan["lam_g"]
+                opts["save_objective_values"] = True
+                if gk_ == "l1":
+                    opts["g"] = lambda v: lg_ * float(np.sum(np.abs(v)))
+                elif gk_ == "l2":
+                    opts["g"] = lambda v: 0.5 * lg_ * float(np.real(np.vdot(v, v)))
+                elif gk_ == "box":
+                    opts["g"] = lambda v: 0.0
             if k["steps_given"]:
                 Gd = dense_G(plan["G"], plan["A"]["ishape"]) if plan.get("G") else None
                 nK2 = normA2 + (float(np.linalg.norm(Gd, 2) ** 2) if Gd is not None else 0.0)
@@ -668,13 +694,28 @@ class LLSWorld(World):
                         "g": gk, "lamda": lam, "z": z is not None, "updates": r1["updates"], "steps_given": k["steps_given"],
                         "dist": float(np.linalg.norm(xv - xs))})
         res.trace.append({"a": "RUN", "updates": r1["updates"], "gap": codec.fnum(gap / (F0 - Fs + 1.0), 4)})
+        app1 = r1.get("app")
+        if k.get("save_obj") and app1 is not None and getattr(app1, "objective_values", None):
+            # the app's own record of the documented objective must agree with the harness
+            stats["probes.objective_values_compared"] += 1
+            ov = app1.objective_values
+            Fh = F(xv)
+            if len(ov) != r1["updates"] + 1 and not r1.get("resumed"):
+                self._flag(res, "objective_values_length", site, 0, {"len": len(ov), "updates": r1["updates"]})
+            elif not np.isfinite(ov[-1]) or abs(ov[-1] - Fh) > 1e-9 * (abs(Fh) + 1):
+                self._flag(res, "objective_value_differs_from_documented_objective", site, 0,
+                           {"app": float(ov[-1]), "harness": Fh, "g": gk, "G": gkG, "lamda": lam, "z": z is not None})
         # ---- twins
         if plan["twin"] == "rng":
             r2 = self._one_run(plan, res, plan["rng"]["twin_seed"], [], plan["clock"], judge_ledger=False)
             stats["probes.twin_rng_history"] += 1
             if r2["x"] is not None:
                 gap2 = F(r2["x"]) - Fs
-                if gap2 > tol:
+                slow2 = False
+                if gap2 > tol and r2.get("x_mid") is not None:
+                    gm2 = F(r2["x_mid"]) - Fs
+                    slow2 = bool(np.isfinite(gm2) and gm2 > 0 and gap2 < 0.7 * gm2)
+                if gap2 > tol and not slow2 and not still_converging:
                     self._flag(res, "answer_depends_on_rng_history", site, 0, {"gap": gap2, "tol": tol})
         elif plan["twin"] == "stream" and (sfaults or cspec["jumps"]) and not r1.get("resumed"):
             r2 = self._one_run(plan, res, plan["rng"]["seed"], [], plan["clock"], judge_ledger=False)
@@ -685,6 +726,7 @@ class LLSWorld(World):
         res.fingerprint = codec.json_digest([
             k["solver"], eff, plan["A"]["kind"], gk, gkG, lam > 0, z is not None, k["xgiven"], k["P"], k["steps_given"],
             k["accelerate"], k["rho"], k["complex"], k["show_pbar"], plan["twin"], n, bool(plan.get("prev")),
+            bool(k.get("z_scalar")), bool(k.get("save_obj")), bool(k.get("views")),
             [(f["seam"], f.get("kind", "jump")) for f in plan["faults"]]])
 
     # ---------------------------------------------------------------- shrink
